@@ -41,7 +41,11 @@ type C01Plan struct {
 	Links        []c01Link  `json:"links"`
 	Events       []c01Event `json:"events"`
 	Tie          bool       `json:"tie"` // equal-cost batch
-	Shrink       []string   `json:"_shrink"`
+	// Stale: a fixed small topology in which an update of a node's previous incarnation is held on a stalled path
+	// and let through ReleaseMs after the restarted node's new link has come up
+	Stale     bool     `json:"stale"`
+	ReleaseMs int      `json:"release_ms"`
+	Shrink    []string `json:"_shrink"`
 }
 
 func genC01(seed uint64, tier string) any {
@@ -49,6 +53,25 @@ func genC01(seed uint64, tier string) any {
 	p := &C01Plan{Shrink: []string{"events", "links"}}
 	p.RouteUpdateS = r.Range(2, 10)
 	p.MaxIdleS = 2*p.RouteUpdateS + 1 + r.Intn(3)
+	if r.Bool(0.12) {
+		// a--c--n chain plus a stub d on a; the link a--n exists but is down until after a's restart; c--n stalls
+		p.Stale, p.ReleaseMs = true, simnet.Pick(r, []int{0, 1, 5, 20, 60, 110, 200, 400})
+		p.RouteUpdateS, p.MaxIdleS = 30, 90
+		p.Nodes = []string{"a", "c", "n", "d"}
+		mk := func(name, x, y string, k int, up bool) c01Link {
+			return c01Link{Name: name, A: x, B: y, CostBase: 1, CostK: k, LatUs: r.Range(500, 20000), Up: up}
+		}
+		p.Links = []c01Link{mk("L1", "a", "c", 11, true), mk("L2", "c", "n", 23, true), mk("L3", "a", "n", 37, false), mk("L4", "a", "d", 51, true)}
+		down := r.Range(1100, 2500)
+		p.Events = []c01Event{
+			{AtMs: 8000, Kind: "hold", Link: "L2"},
+			{AtMs: 8030, Kind: "cut", Link: "L4"}, // a floods an update (its last before the restart); it gets as far as c
+			{AtMs: 8300, Kind: "restart", Node: "a", Arg: down},
+			{AtMs: 8300 + down + 4000, Kind: "heal-release", Link: "L3", Arg: p.ReleaseMs},
+		}
+		p.Shrink = nil
+		return p
+	}
 	maxN, maxEv := 6, 6
 	if tier == "thorough" {
 		maxN, maxEv = 8, 20
@@ -130,6 +153,29 @@ func genC01(seed uint64, tier string) any {
 		}
 		p.Events = append(p.Events, ev)
 	}
+	// a restart while an update of the old incarnation is still travelling: a link somewhere else holds its traffic
+	// for seconds, one of the node's links changes (so it floods an update), then the node restarts
+	if len(p.Nodes) >= 3 && r.Bool(0.25) {
+		a := simnet.Pick(r, p.Nodes)
+		var adj, far []string
+		for _, l := range p.Links {
+			if l.A == a || l.B == a {
+				adj = append(adj, l.Name)
+			} else {
+				far = append(far, l.Name)
+			}
+		}
+		if len(adj) > 0 && len(far) > 0 {
+			at += 5000
+			hold := simnet.Pick(r, far)
+			down := r.Range(1100, 2500)
+			p.Events = append(p.Events,
+				c01Event{AtMs: at, Kind: "delay", Link: hold, Arg: r.Range(2500, 9000)},
+				c01Event{AtMs: at + 30, Kind: "cut", Link: simnet.Pick(r, adj)},
+				c01Event{AtMs: at + 200, Kind: "restart", Node: a, Arg: down},
+				c01Event{AtMs: at + 200 + down + 15000, Kind: "delay", Link: hold, Arg: 0})
+		}
+	}
 	return p
 }
 
@@ -206,6 +252,21 @@ func runC01(t *testing.T, planAny any, res *simnet.Result) {
 				if l != nil {
 					l.SetExtraDelay(time.Duration(ev.Arg) * time.Millisecond)
 					kinds["delay"] = true
+				}
+			case "hold":
+				if l != nil {
+					l.Hold()
+					kinds["hold"] = true
+				}
+			case "heal-release":
+				// the link comes up; Arg ms later whatever the stalled path (L2) was holding is let through
+				if l != nil && !l.Up() && m.Nodes[l.Ends[0]].Up() && m.Nodes[l.Ends[1]].Up() {
+					_ = m.Up(l)
+					kinds["heal"] = true
+				}
+				time.Sleep(time.Duration(ev.Arg) * time.Millisecond)
+				if h := links["L2"]; h != nil {
+					h.Release()
 				}
 			case "stop":
 				if n := m.Nodes[ev.Node]; n != nil && n.Up() {
